@@ -220,7 +220,7 @@ func runC11(w *World, r *Report, tier string) {
 			r.Check(hasH && isFA && fieldOfAddr(fa) == fInbound, "R2", cons+"#H", w.ipos(al), "h is not the session's inbound counter: "+describeOpt(w, hv), "H = &SMState.Inbound")
 		}
 		// reply read after the write
-		for _, c := range w.callsIn(fn, "stanza.NextPacket") {
+		for _, c := range w.callsInH(fn, "stanza.NextPacket") {
 			if cc, ok := c.(*ssa.Call); ok && reachable(after(wr), func(in ssa.Instruction) bool { return in == ssa.Instruction(cc) }, nil, nil) {
 				np = cc
 			}
@@ -367,7 +367,7 @@ func runC11(w *World, r *Report, tier string) {
 	}
 
 	// R4/R5 in NewSession
-	resCalls := w.callsIn(ns, "xmpp.Session.resume")
+	resCalls := w.callsInH(ns, "xmpp.Session.resume")
 	if len(resCalls) != 1 {
 		r.Undecided("R4", "xmpp.NewSession→resume", w.pos(ns.Pos()), fmt.Sprintf("expected one call of resume, found %d", len(resCalls)))
 	} else {
